@@ -461,6 +461,28 @@ def tr_hash(text):
 
 # --------------------------------------------------------------------------- worker
 
+def run_refs(eng, exe, plan):
+    """Reference executions an engine asks for (e.g. each context's script run alone): each one in
+    a brand-new executor process, so that nothing left behind by other scripts can leak into it."""
+    out = []
+    if not hasattr(eng, 'extra_runs'):
+        return None
+    for k, rp in enumerate(eng.extra_runs(plan)):
+        ex2 = Executor(exe, 'ref.%s.%d' % (eng.NAME, k))
+        try:
+            out.append(ex2.run(rp, timeout=getattr(eng, 'TIMEOUT', 60.0)))
+        finally:
+            ex2.close()
+    return out
+
+
+def call_check(eng, plan, tr, config, opts, exe):
+    refs = run_refs(eng, exe, plan)
+    if refs is None:
+        return eng.check(plan, tr, config, opts)
+    return eng.check(plan, tr, config, opts, refs)
+
+
 def _crash_ident(eng, plan, diag, prop):
     if hasattr(eng, 'crash_sig'):
         return eng.crash_sig(plan, diag, prop)
@@ -505,7 +527,7 @@ def _worker(engine_mod, config, exe, prop, seed, tier, wid, nworkers, nruns, dea
                 agg['exec_s'] += time.time() - t0
                 nxt = None
                 if status == 'ok':
-                    o2 = eng.check(todo, tr, config, opts)
+                    o2 = call_check(eng, todo, tr, config, opts, exe)
                     agg['hashes'].add(tr_hash(tr)[:16])
                     _merge_outcome(out, o2, todo)
                 elif status == 'died':
@@ -519,6 +541,8 @@ def _worker(engine_mod, config, exe, prop, seed, tier, wid, nworkers, nruns, dea
                 else:
                     agg['hangs'] += 1
                     out.violate(prop, prop + '|hang|' + eng.NAME, 'plan exceeded its time budget')
+                    if agg['hangs'] >= 2:
+                        deadline = 0
                 todo = nxt
             agg['runs'] += 1
             agg['evals'] += out.evals
@@ -653,12 +677,12 @@ def evaluate_plan(engine_mod, config, exe, plan, prop, ex=None, opts=None):
     finally:
         if own:
             ex.close()
-    return _judge(engine_mod, config, plan, prop, status, tr, diag, opts)
+    return _judge(engine_mod, config, plan, prop, status, tr, diag, opts, exe)
 
 
-def _judge(engine_mod, config, plan, prop, status, tr, diag, opts):
+def _judge(engine_mod, config, plan, prop, status, tr, diag, opts, exe=None):
     if status == 'ok':
-        out = engine_mod.check(plan, tr, config, opts or {})
+        out = call_check(engine_mod, plan, tr, config, opts or {}, exe)
         return [(v.prop, v.sig, v.detail) for v in out.violations], tr_hash(tr), status
     if status == 'died':
         cp, sig = _crash_ident(engine_mod, plan, diag, prop)
@@ -670,8 +694,8 @@ def evaluate_fresh(engine_mod, config, exe, plan_path, prop, opts=None):
     status, tr, diag = run_once_fresh(exe, plan_path, timeout=getattr(engine_mod, 'TIMEOUT', 60.0) * 2)
     plan = open(plan_path).read()
     if status == 'died' and 'exit=' in diag:
-        return _judge(engine_mod, config, plan, prop, 'died', tr, diag, opts)
-    return _judge(engine_mod, config, plan, prop, status, tr, diag, opts)
+        return _judge(engine_mod, config, plan, prop, 'died', tr, diag, opts, exe)
+    return _judge(engine_mod, config, plan, prop, status, tr, diag, opts, exe)
 
 
 def split_plan(plan):
